@@ -358,7 +358,10 @@ fn c13(tier: Tier, seed: u64) -> i32 {
 		});
 		held && multi && (has(r, "try_failed") || has(r, "acquire.try") || has(r, "acquire.scoped_try"))
 	};
-	let e = SeqEval { prop: "C13", opts, nontrivial: &nontrivial, extra: None };
+	// a try_* call that waits never delivers the outcome the statement fixes
+	// (in a quiescent state it would wait for ever instead of failing)
+	let extra = |case: &SeqCase, r: &RunResult| -> Vec<Finding> { post_findings("C13", &AnyCase::Seq(case.clone()), r) };
+	let e = SeqEval { prop: "C13", opts, nontrivial: &nontrivial, extra: Some(&extra) };
 	let n = tier.pick(40_000, 2_000_000);
 	ctx.search("seq-quiescent-try", n, 200, |bytes, want| {
 		let case = gen_seq(&mut Src::new(bytes), &cfg);
@@ -735,6 +738,12 @@ pub fn post_findings(prop: &str, case: &AnyCase, r: &RunResult) -> Vec<Finding> 
 	};
 	match prop {
 		"C08" => order_findings(world, r),
+		"C13" => r
+			.findings
+			.iter()
+			.filter(|f| f.prop == "C04" && f.sig.starts_with("try-waits"))
+			.map(|f| Finding { prop: "C13", sig: format!("waits-instead-of-failing|{}", f.sig), ..f.clone() })
+			.collect(),
 		"C10" => r
 			.findings
 			.iter()
@@ -1095,78 +1104,81 @@ fn retry_rolled_back(case: &ConcCase, r: &RunResult) -> bool {
 }
 
 
+/// one base case of C12 with every fault plan (also the body of the fuzz target)
+pub fn c12_eval(bytes: &[u8], want: bool) -> CaseReport {
+	let mut src = Src::new(bytes);
+	let base = gen_c12_base(&mut src);
+	let (nops, r0) = count_ops(&base);
+	if r0.invalid.is_some() {
+		return CaseReport { invalid: true, ..Default::default() };
+	}
+	let mut rep = CaseReport { fp: fp_str(&format!("{:?}", base.case)), ..Default::default() };
+	let mut labels: std::collections::BTreeSet<String> = case_labels(&base.case.world, &r0).into_iter().collect();
+	labels.insert(format!("c12.api.{}", base.api));
+	labels.insert(format!("c12.kind.{}", base.kind));
+	let mut plans: Vec<FaultPlan> = (0..nops.min(60)).map(|i| FaultPlan { one_shot: Some(i), persistent: vec![] }).collect();
+	// persistent fault sets on member locks
+	let sem = Sem::new(&base.case.world);
+	let tflat = match base.case.steps[base.fault_step].1.clone() {
+		Step::Acquire { target, .. } | Step::Scoped { target, .. } => sem.target_flat(target).leaves(),
+		_ => match base.case.steps.iter().find_map(|(_, s)| if let Step::Acquire { target, .. } = s { Some(*target) } else { None }) {
+			Some(t) => sem.target_flat(t).leaves(),
+			None => vec![],
+		},
+	};
+	if !tflat.is_empty() && nops > 0 {
+		for _ in 0..2 {
+			let l = tflat[src.pick(tflat.len())];
+			let mask = match src.pick(5) {
+				0 => crate::exec::Op::Lock.bit() | crate::exec::Op::LockSh.bit() | crate::exec::Op::Unlock.bit() | crate::exec::Op::UnlockSh.bit(),
+				1 => crate::exec::Op::TryLock.bit() | crate::exec::Op::TryLockSh.bit() | crate::exec::Op::Unlock.bit() | crate::exec::Op::UnlockSh.bit(),
+				2 => crate::exec::Op::Unlock.bit() | crate::exec::Op::UnlockSh.bit(),
+				3 => 0x3f,
+				_ => crate::exec::Op::TryLock.bit() | crate::exec::Op::TryLockSh.bit(),
+			};
+			plans.push(FaultPlan { one_shot: None, persistent: vec![(l, mask)] });
+		}
+	}
+	for plan in plans {
+		let case = with_fault(&base, plan);
+		let r = run_seq(&case, FAULT_OPTS);
+		rep.extra_evals += 1;
+		let mut f = c12_findings(&case, &base.api, &base.kind, &r);
+		f.extend(r.findings.iter().filter(|f| f.prop == "C12" || f.prop == "PANIC").cloned());
+		if let Some((_, _, op, _)) = r.fault_fired.first() {
+			labels.insert(format!("c12.fault.{}", op.short()));
+			if !case.fault.as_ref().unwrap().plan.persistent.is_empty() {
+				labels.insert("c12.persistent_fired".into());
+			}
+		}
+		if r.labels.contains_key("probed_faulted_lock") {
+			labels.insert("c12.probed".into());
+		}
+		if c12_nontrivial(&case, &r, nops) {
+			rep.extra_nontrivial.push(fp_str(&format!("{case:?}")));
+			if want && rep.sample.is_none() {
+				rep.sample = Some(sample_seq(&case, &r));
+				rep.nontrivial = true;
+			}
+		}
+		if !f.is_empty() && rep.replay.is_none() {
+			rep.replay = Some(json!({"engine": "seq", "opts": opts_json(&FAULT_OPTS), "case": case, "trace": r.trace, "world": describe_world(&case.world), "c12": {"api": base.api, "kind": base.kind}}));
+		}
+		rep.violations.extend(f);
+		if let Some(i) = r.inconclusive {
+			rep.inconclusive = Some(i);
+		}
+	}
+	rep.labels = labels.into_iter().collect();
+	rep
+}
+
 fn c12(tier: Tier, seed: u64) -> i32 {
 	let mut ctx = CheckCtx::new("C12", "fault_enumeration", tier, seed);
 	ctx.rule = "Base cases decoded from proptest byte vectors: world (all kinds, Mutex and RwLock leaves, nesting, by-value and by-reference) x target x {write, read} x {lock, try_lock, scoped_lock, scoped_try_lock, guard drop, unlock fn} x pre-held pattern (phantom read/write holders). Each base case is run fault-free to count the raw operations n of the chosen call, then re-run with a one-shot panic at EVERY raw-operation index 0..n-1, and with 2 persistent per-(lock, operation-class) fault sets (as tests/evil_*.rs) placed on member locks. Oracle on the trace of the faulted call: the panic reaches the caller; no release of a lock the caller does not hold; nothing but a lock whose own release panicked stays held; afterwards try_* on the faulted lock fails and a blocking acquisition panics. Non-trivial = the fault index is neither the first nor the last operation and another lock was held at the fault; distinct = hash(base case, fault plan). evaluations counts every faulted execution.".into();
 	ctx.assumptions.push("fault model: a faulted raw operation has no effect on the lock state (like the repository's evil_* locks)".into());
 	let n = tier.pick(12_000, 400_000);
-	ctx.search("seq-fault-enumeration", n, 160, |bytes, want| {
-		let mut src = Src::new(bytes);
-		let base = gen_c12_base(&mut src);
-		let (nops, r0) = count_ops(&base);
-		if r0.invalid.is_some() {
-			return CaseReport { invalid: true, ..Default::default() };
-		}
-		let mut rep = CaseReport { fp: fp_str(&format!("{:?}", base.case)), ..Default::default() };
-		let mut labels: std::collections::BTreeSet<String> = case_labels(&base.case.world, &r0).into_iter().collect();
-		labels.insert(format!("c12.api.{}", base.api));
-		labels.insert(format!("c12.kind.{}", base.kind));
-		let mut plans: Vec<FaultPlan> = (0..nops.min(60)).map(|i| FaultPlan { one_shot: Some(i), persistent: vec![] }).collect();
-		// persistent fault sets on member locks
-		let sem = Sem::new(&base.case.world);
-		let tflat = match base.case.steps[base.fault_step].1.clone() {
-			Step::Acquire { target, .. } | Step::Scoped { target, .. } => sem.target_flat(target).leaves(),
-			_ => match base.case.steps.iter().find_map(|(_, s)| if let Step::Acquire { target, .. } = s { Some(*target) } else { None }) {
-				Some(t) => sem.target_flat(t).leaves(),
-				None => vec![],
-			},
-		};
-		if !tflat.is_empty() && nops > 0 {
-			for _ in 0..2 {
-				let l = tflat[src.pick(tflat.len())];
-				let mask = match src.pick(5) {
-					0 => crate::exec::Op::Lock.bit() | crate::exec::Op::LockSh.bit() | crate::exec::Op::Unlock.bit() | crate::exec::Op::UnlockSh.bit(),
-					1 => crate::exec::Op::TryLock.bit() | crate::exec::Op::TryLockSh.bit() | crate::exec::Op::Unlock.bit() | crate::exec::Op::UnlockSh.bit(),
-					2 => crate::exec::Op::Unlock.bit() | crate::exec::Op::UnlockSh.bit(),
-					3 => 0x3f,
-					_ => crate::exec::Op::TryLock.bit() | crate::exec::Op::TryLockSh.bit(),
-				};
-				plans.push(FaultPlan { one_shot: None, persistent: vec![(l, mask)] });
-			}
-		}
-		for plan in plans {
-			let case = with_fault(&base, plan);
-			let r = run_seq(&case, FAULT_OPTS);
-			rep.extra_evals += 1;
-			let mut f = c12_findings(&case, &base.api, &base.kind, &r);
-			f.extend(r.findings.iter().filter(|f| f.prop == "C12" || f.prop == "PANIC").cloned());
-			if let Some((_, _, op, _)) = r.fault_fired.first() {
-				labels.insert(format!("c12.fault.{}", op.short()));
-				if !case.fault.as_ref().unwrap().plan.persistent.is_empty() {
-					labels.insert("c12.persistent_fired".into());
-				}
-			}
-			if r.labels.contains_key("probed_faulted_lock") {
-				labels.insert("c12.probed".into());
-			}
-			if c12_nontrivial(&case, &r, nops) {
-				rep.extra_nontrivial.push(fp_str(&format!("{case:?}")));
-				if want && rep.sample.is_none() {
-					rep.sample = Some(sample_seq(&case, &r));
-					rep.nontrivial = true;
-				}
-			}
-			if !f.is_empty() && rep.replay.is_none() {
-				rep.replay = Some(json!({"engine": "seq", "opts": opts_json(&FAULT_OPTS), "case": case, "trace": r.trace, "world": describe_world(&case.world), "c12": {"api": base.api, "kind": base.kind}}));
-			}
-			rep.violations.extend(f);
-			if let Some(i) = r.inconclusive {
-				rep.inconclusive = Some(i);
-			}
-		}
-		rep.labels = labels.into_iter().collect();
-		rep
-	});
+	ctx.search("seq-fault-enumeration", n, 160, |bytes, want| c12_eval(bytes, want));
 	ctx.require_label("c12.fault.unlock", 500);
 	ctx.require_label("c12.fault.try", 500);
 	ctx.require_label("c12.fault.lock", 500);
@@ -1257,9 +1269,8 @@ fn c07_eval(case: &SeqCase, r: &RunResult) -> (Vec<Finding>, bool, Vec<String>) 
 	(out, nontrivial, labels)
 }
 
-fn c07(tier: Tier, seed: u64) -> i32 {
-	let mut ctx = CheckCtx::new("C07", "exploration", tier, seed);
-	ctx.rule = "Member lists of length 0..6 over <= 5 leaves (Mutex / RwLock, Poisonable wrappers, inline Poisonable<&lock>) and nested members (references to boxed / ref / retrying / owned collections, by-value members of other collections, Poisonable collections), duplicates allowed at any pair of positions, for BoxedLockCollection::try_new, RefLockCollection::try_new and RetryingLockCollection::try_new; oracle: try_new(..) is None iff the flattened unit list of the reference model has a repeated unit (an owned collection counts as one unit); every accepted collection is locked once (and read once where sharable) with the C04/C02 oracles. Plus the exhaustive enumeration of ALL member lists of length <= 5 (thorough: <= 6) over 4 leaves for the three constructors. The compile-time half (new / new_ref reject inputs containing references) is decided by the TYPES engine (families C07-*). Non-trivial = a list with a duplicate whose two occurrences are not adjacent in declared order (length >= 3), or a duplicate hidden inside a nested member / wrapper, or a duplicate-free nested list of >= 3 units; distinct = hash of the decoded world.".into();
+/// one case of C07's random campaign (also the body of the fuzz target)
+pub fn c07_random_eval(bytes: &[u8], want: bool) -> CaseReport {
 	let mut wcfg = WorldCfg::default();
 	wcfg.allow_dups = true;
 	wcfg.max_members = 6;
@@ -1269,31 +1280,36 @@ fn c07(tier: Tier, seed: u64) -> i32 {
 	wcfg.p_nested = 110;
 	wcfg.p_copy_permuted = 50;
 	let opts = Opts::default();
+	let world = gen_world(&mut Src::new(bytes), &wcfg);
+	let steps = use_every_collection(&world);
+	let case = SeqCase { world, nthreads: 1, steps, fault: None };
+	let r = run_seq(&case, opts);
+	if r.invalid.is_some() {
+		return CaseReport { invalid: true, ..Default::default() };
+	}
+	let (violations, nontrivial, mut labels) = c07_eval(&case, &r);
+	labels.extend(case_labels(&case.world, &r).into_iter().filter(|l| l.starts_with("world.")));
+	labels.sort();
+	labels.dedup();
+	let replay = if violations.is_empty() { None } else { Some(json!({"engine": "seq", "opts": opts_json(&opts), "case": case, "trace": r.trace, "world": describe_world(&case.world)})) };
+	CaseReport {
+		violations,
+		nontrivial,
+		fp: fp_str(&format!("{:?}", case.world)),
+		labels,
+		inconclusive: r.inconclusive.clone(),
+		sample: if want && nontrivial { Some(json!({"world": describe_world(&case.world), "rejected": r.rejected, "model_units": Sem::new(&case.world).own_units})) } else { None },
+		replay,
+		..Default::default()
+	}
+}
+
+fn c07(tier: Tier, seed: u64) -> i32 {
+	let mut ctx = CheckCtx::new("C07", "exploration", tier, seed);
+	ctx.rule = "Member lists of length 0..6 over <= 5 leaves (Mutex / RwLock, Poisonable wrappers, inline Poisonable<&lock>) and nested members (references to boxed / ref / retrying / owned collections, by-value members of other collections, Poisonable collections), duplicates allowed at any pair of positions, for BoxedLockCollection::try_new, RefLockCollection::try_new and RetryingLockCollection::try_new; oracle: try_new(..) is None iff the flattened unit list of the reference model has a repeated unit (an owned collection counts as one unit); every accepted collection is locked once (and read once where sharable) with the C04/C02 oracles. Plus the exhaustive enumeration of ALL member lists of length <= 5 (thorough: <= 6) over 4 leaves for the three constructors. The compile-time half (new / new_ref reject inputs containing references) is decided by the TYPES engine (families C07-*). Non-trivial = a list with a duplicate whose two occurrences are not adjacent in declared order (length >= 3), or a duplicate hidden inside a nested member / wrapper, or a duplicate-free nested list of >= 3 units; distinct = hash of the decoded world.".into();
 	let n = tier.pick(120_000, 3_000_000);
-	ctx.search("seq-try_new-vs-model", n, 200, |bytes, want| {
-		let world = gen_world(&mut Src::new(bytes), &wcfg);
-		let steps = use_every_collection(&world);
-		let case = SeqCase { world, nthreads: 1, steps, fault: None };
-		let r = run_seq(&case, opts);
-		if r.invalid.is_some() {
-			return CaseReport { invalid: true, ..Default::default() };
-		}
-		let (violations, nontrivial, mut labels) = c07_eval(&case, &r);
-		labels.extend(case_labels(&case.world, &r).into_iter().filter(|l| l.starts_with("world.")));
-		labels.sort();
-		labels.dedup();
-		let replay = if violations.is_empty() { None } else { Some(json!({"engine": "seq", "opts": opts_json(&opts), "case": case, "trace": r.trace, "world": describe_world(&case.world)})) };
-		CaseReport {
-			violations,
-			nontrivial,
-			fp: fp_str(&format!("{:?}", case.world)),
-			labels,
-			inconclusive: r.inconclusive.clone(),
-			sample: if want && nontrivial { Some(json!({"world": describe_world(&case.world), "rejected": r.rejected, "model_units": Sem::new(&case.world).own_units})) } else { None },
-			replay,
-			..Default::default()
-		}
-	});
+	ctx.search("seq-try_new-vs-model", n, 200, |bytes, want| c07_random_eval(bytes, want));
+	let opts = Opts::default();
 	// exhaustive: every list over 4 leaves
 	let maxlen = tier.pick(5, 6) as usize;
 	let mut lists: Vec<(KindTag, Vec<usize>)> = Vec::new();
@@ -1486,6 +1502,24 @@ fn types_check(prop: &'static str, tier: Tier, seed: u64) -> i32 {
 }
 
 
+/// one DROPS plan (also the body of the fuzz target)
+pub fn c16_eval(bytes: &[u8], want: bool) -> CaseReport {
+	let plan = crate::drops::gen_plan(&mut Src::new(bytes));
+	let out = crate::drops::run_plan(&plan);
+	let nontrivial = (!plan.writes.is_empty() && plan.n > 0 && plan.end != crate::drops::DEnd::Drop)
+		|| matches!(plan.kind, crate::drops::DKind::BoxedRejected | crate::drops::DKind::RetryRejected);
+	let replay = if out.findings.is_empty() { None } else { Some(json!({"engine": "drops", "plan": plan})) };
+	CaseReport {
+		violations: out.findings,
+		nontrivial,
+		fp: fp_str(&format!("{plan:?}")),
+		labels: out.labels,
+		sample: if want && nontrivial { Some(json!({"plan": plan})) } else { None },
+		replay,
+		..Default::default()
+	}
+}
+
 fn c16(tier: Tier, seed: u64) -> i32 {
 	let mut ctx = CheckCtx::new("C16", "exploration", tier, seed);
 	ctx.assumptions = vec![
@@ -1494,22 +1528,7 @@ fn c16(tier: Tier, seed: u64) -> i32 {
 	];
 	ctx.rule = "Scenario plans decoded from proptest byte vectors: leaf type (Mutex, RwLock, Poisonable<Mutex>) x container (Vec, Box<[_]>, arrays of 0..4, tuples of 1..3) x size 0..4 x construction path (Boxed new / from / try_new / new_ref, Owned new / from, Retrying new / from / try_new / new_ref, Ref new / try_new, FromIterator (collect) into Boxed / Owned / Retrying over Vec, and try_new REJECTING an input that owns locks next to a duplicated reference) x writes under lock (through collection guards and scoped closures, per position) x optional poisoning panic x destruction path (drop, into_child + into_inner of the container, into_inner, into_iter (+ into_inner of every lock), extend (Owned / Retrying over Vec) then into_inner, get_mut / child_mut then drop, by-reference collection then container get_mut / into_inner). Oracle: drop-counting payloads: every id exactly once when everything is gone (and exactly once right after a rejected try_new); get_mut / into_inner / into_child return (id, last written version) at every declared position. Non-trivial = a write under a lock followed by a consuming destructor or observer, or a rejected try_new with owned content; distinct = hash of the plan.".into();
 	let n = tier.pick(200_000, 4_000_000);
-	ctx.search("drop-once-and-round-trip", n, 40, |bytes, want| {
-		let plan = crate::drops::gen_plan(&mut Src::new(bytes));
-		let out = crate::drops::run_plan(&plan);
-		let nontrivial = (!plan.writes.is_empty() && plan.n > 0 && plan.end != crate::drops::DEnd::Drop)
-			|| matches!(plan.kind, crate::drops::DKind::BoxedRejected | crate::drops::DKind::RetryRejected);
-		let replay = if out.findings.is_empty() { None } else { Some(json!({"engine": "drops", "plan": plan})) };
-		CaseReport {
-			violations: out.findings,
-			nontrivial,
-			fp: fp_str(&format!("{plan:?}")),
-			labels: out.labels,
-			sample: if want && nontrivial { Some(json!({"plan": plan})) } else { None },
-			replay,
-			..Default::default()
-		}
-	});
+	ctx.search("drop-once-and-round-trip", n, 40, |bytes, want| c16_eval(bytes, want));
 	ctx.require_label("c16.rejected_try_new_with_owned_content", 1000);
 	ctx.require_label("c16.poisoned", 1000);
 	ctx.require_label("c16.end.IntoChild", 1000);
@@ -1822,4 +1841,15 @@ pub fn write_fuzz_replay(prop: &str, fd: &Finding, case: Value) -> String {
 	let doc = json!({"property": prop, "signature": fd.sig, "finding_property": fd.prop, "detail": fd.detail, "step": fd.step, "tid": fd.tid, "case": case, "found_by": "libFuzzer"});
 	let _ = std::fs::write(&path, serde_json::to_string_pretty(&doc).unwrap());
 	path.display().to_string()
+}
+
+/// Fuzz entry for the properties whose campaign is not a plain SEQ / CONC
+/// profile: the same per-case evaluator the proptest runner uses.
+pub fn fuzz_eval(prop: &str, bytes: &[u8]) -> Option<CaseReport> {
+	match prop {
+		"C07" => Some(c07_random_eval(bytes, false)),
+		"C12" => Some(c12_eval(bytes, false)),
+		"C16" => Some(c16_eval(bytes, false)),
+		_ => None,
+	}
 }
